@@ -78,6 +78,25 @@ Theorem accounting_invariant : forall cfg c0 evs, full_inv (fst (run (init cfg c
 Proof. exact reachable_full_inv. Qed.
 Print Assumptions accounting_invariant.
 
+(* The idle list is exactly the set of incarnations without requests in
+   flight, without duplicates. *)
+Theorem idle_list_invariant : forall cfg c0 evs, idle_inv (fst (run (init cfg c0) evs)).
+Proof. exact reachable_idle_inv. Qed.
+Print Assumptions idle_list_invariant.
+
+(* expiry_leaves_nothing: when no request is in flight and every lease has
+   lapsed, one enter() (the first thing every request does) leaves no
+   client, no session, no request, and every leaf closed.  (That the
+   opened-files pool is empty too is monitored, not proved: partial.) *)
+Theorem expiry_leaves_nothing_partial : forall cfg c0 evs,
+  let st := fst (run (init cfg c0) evs) in
+  st_threads st = [] ->
+  (forall c, In c (st_clients st) -> c_seen c + cf_lease (st_cfg st) < N.max (st_now st) (st_clock st)) ->
+  st_clients (fst (enter st)) = [] /\ st_sessions (fst (enter st)) = [] /\ st_threads (fst (enter st)) = []
+  /\ forall h b, balance h b (snd (run (init cfg c0) evs) ++ snd (enter st)) = 0%Z.
+Proof. exact enter_after_all_leases_lapsed. Qed.
+Print Assumptions expiry_leaves_nothing_partial.
+
 (* State IDs are honoured only for the client, the file handle and the
    sequence number they were issued for. *)
 Theorem stateid_scope_open : forall c cfh s w o,
